@@ -630,6 +630,15 @@ func main() {
 	}
 	setupWorld()
 	if r.Replay != "" {
+		var probe struct {
+			Phase string `json:"phase"`
+		}
+		r.LoadReplay(&probe)
+		if probe.Phase == "concurrent" {
+			phaseConcurrent(r)
+			teardownWorld()
+			r.Finish()
+		}
 		replay(r)
 		teardownWorld()
 		r.Finish()
@@ -638,7 +647,7 @@ func main() {
 	phaseOutOfRange(r)
 	phaseMenus(r)
 	phaseMaintenance(r)
-	// phaseConcurrent(r): schedule exploration over the tap (see world.go) — added separately.
+	phaseConcurrent(r)
 	teardownWorld()
 	pprof.StopCPUProfile()
 
